@@ -270,6 +270,27 @@ ENSURES((O_PEND(h) && H_BUCKET_IDX(RESULT) == vf_w_g) ==> H_BYTE(RESULT->cst) ==
 ENSURES(h->bucket.capacity == OLD(h->bucket.capacity) && h->bucket.at == OLD(h->bucket.at) && h->count == OLD(h->count))
 ;
 
+#ifdef VF_G_insert
+/* C03, array level: insert makes the element the head of the chain of the bucket that the EFFECTIVE
+ * function selects for k (cstl_hash_get_bucket is replaced by its proved contract), stores the key in
+ * the node and counts it; the flat and sweep invariants are kept.  (What the rest of that chain is,
+ * is chain-level and bounded: hashb.*.) */
+#define H_NODE_OF(e)    ((struct cstl_hash_node *)((char *)(e) + 8))
+void cstl_hash_insert(struct cstl_hash * const h, const size_t k, void * const e)
+REQUIRES(H_OBJ(h))
+REQUIRES(H_FLAT(h) && H_USES_STUBS(h))
+REQUIRES(vf_w_g < h->bucket.capacity && H_SWEEP(h, vf_w_g) && vf_dirty_cleaned == 0)
+REQUIRES(h->off == 8 && FRESH(e, 8 + sizeof(struct cstl_hash_node)) && h->count < SIZE_MAX)
+ASSIGNS(h->bucket.rh.clean, h->bucket.count, h->bucket.hash, h->bucket.rh.hash, h->count,
+        vf_dirty_cleaned, __CPROVER_object_whole(h->bucket.at), H_NODE_OF(e)->key, H_NODE_OF(e)->next,
+        vf_hash_calls1, vf_hash_calls2, vf_hash_k, vf_hash_m, vf_hash_ret, vf_hash_ret1, vf_aborted)
+ENSURES(H_FLAT(h) && H_SWEEP(h, vf_w_g))
+ENSURES(h->count == OLD(h->count) + 1 && H_NODE_OF(e)->key == k)
+ENSURES(vf_hash_k == k && vf_hash_m == O_EFFN(h) && vf_hash_ret < O_EFFN(h) && h->bucket.at[vf_hash_ret].n == H_NODE_OF(e))
+ENSURES(h->bucket.capacity == OLD(h->bucket.capacity) && h->bucket.at == OLD(h->bucket.at))
+;
+#endif
+
 /* C16: (re)allocation of the bucket array either lands completely or changes nothing */
 static void __cstl_hash_set_capacity(struct cstl_hash * const h, const size_t sz)
 #if defined(VF_G_set_capacity_init) || defined(VF_G_resize_init)
@@ -557,6 +578,18 @@ void h_get_bucket(void)
     cstl_hash_get_bucket(h, k);
     VF_END();
 }
+
+#ifdef VF_G_insert
+void h_insert(void)
+{
+    struct cstl_hash * h; void * e;
+    H_WIT_IN();
+    size_t k = VF_IN_SIZE(k);
+    VF_IN_SIZE(g);
+    cstl_hash_insert(h, k, e);
+    VF_END();
+}
+#endif
 
 #define H_KEEP()  do { vf_keep_off = vf_w_g * H_NB; vf_keep_len = H_NB; } while (0)
 
